@@ -21,6 +21,23 @@ for p in sorted(glob.glob(os.path.join(ROOT, "props", "C*.json"))):
         "level_note": c["level_note"],
         "technique": c["technique"],
     })
+eng = {}
+for p in sorted(glob.glob(os.path.join(ROOT, "props", "C*.json"))):
+    c = json.load(open(p))
+    if c.get("claimed") is False:
+        continue
+    for st in c["stages"]:
+        for kind, name in (("model", st.get("model")), ("harness", st["harness"])):
+            if not name:
+                continue
+            key = (kind, name)
+            e = eng.setdefault(key, {"name": "%s:%s" % (kind, name),
+                                     "path": ("/verif/ocaml/%s (extracted from /verif/coq/theories by Extract.v)" % name) if kind == "model" else "/verif/harness/cmd/%s" % name,
+                                     "serves_properties": [],
+                                     "kind_free_text": "Coq model extracted to OCaml (ExtrOcamlBasic), run on the harness' cases" if kind == "model" else "Go generator + runner of the real code (-tags verif, replace ariga.io/atlas => /repo) + property oracle"})
+            if c["id"] not in e["serves_properties"]:
+                e["serves_properties"].append(c["id"])
+engines = [eng[k] for k in sorted(eng)]
 na_path = os.path.join(ROOT, "props", "not_applicable.json")
 na = json.load(open(na_path)) if os.path.exists(na_path) else {}
 not_applicable = [{"property_id": p, "reason": na.get(p, "check not built yet in this revision of /verif (planned, see DESIGN.md section 4); not claimed until its theorem and correspondence run exist")} for p in ALL if p not in claimed]
@@ -30,11 +47,11 @@ m = {
     "hooks": {
         "guard": "verif",
         "enable": "go build -tags verif (the harness under /verif/harness and /repo/cmd/atlas are built with -tags verif by ./check)",
-        "baseline_off_cmd": "cd /repo && for m in . ./cmd/atlas ./internal/integration; do (cd $m && GOFLAGS=-mod=mod go test -vet=off -count=1 -timeout 25m ./...) || exit 1; done",
+        "baseline_off_cmd": "cd /repo && for m in . cmd/atlas internal/integration; do (cd $m && GOFLAGS=-mod=mod go test -json -vet=off -count=1 -timeout 25m ./...); done",
         "source_commits": json.load(open(os.path.join(ROOT, "props", "hooks.json")))["source_commits"] if os.path.exists(os.path.join(ROOT, "props", "hooks.json")) else [],
         "add_only": True,
     },
-    "engines": json.load(open(os.path.join(ROOT, "props", "engines.json"))) if os.path.exists(os.path.join(ROOT, "props", "engines.json")) else [],
+    "engines": engines,
     "checks": checks,
     "notes": "Technique family: machine-checked proof in Coq 8.16.1 over hand-written executable Gallina models, tied to /repo on every run by a correspondence check (extracted OCaml model vs the real Go code on the same generated cases) plus a property oracle evaluated on the real code. See DESIGN.md. Fix commits in /repo: see known_findings.json ('fixed').",
     "not_applicable": not_applicable,
